@@ -182,6 +182,9 @@ class GenWalker:
                 return self.modconst[node.id]
             if node.id in ("True", "False", "None"):
                 return {"True": True, "False": False, "None": None}[node.id]
+            lazy = self.module_assign(node.id)
+            if lazy is not None:
+                return lazy
             return Opaque(node.id)
         if isinstance(node, ast.Attribute):
             base = self.ev(node.value, env)
@@ -241,9 +244,37 @@ class GenWalker:
             return Opaque(ast.unparse(node))
         if isinstance(node, ast.Dict):
             return Opaque(ast.unparse(node))
-        if isinstance(node, ast.GeneratorExp) or isinstance(node, ast.ListComp):
-            return Opaque(ast.unparse(node))
+        if isinstance(node, (ast.GeneratorExp, ast.ListComp)):
+            return self.comprehension(node, env)
         raise AnalysisError(f"{self.construct}: unsupported expression {type(node).__name__}: {ast.unparse(node)[:80]}")
+
+    def module_assign(self, name: str) -> object:
+        """Module-level ``NAME = <f-string>`` (PRELUDE) evaluated on demand."""
+        for n in self.repo.mod(self._cur_rel).tree.body:
+            if isinstance(n, ast.Assign) and len(n.targets) == 1 and isinstance(n.targets[0], ast.Name) and n.targets[0].id == name:
+                if isinstance(n.value, ast.JoinedStr):
+                    return self.ev(n.value, {})
+        return None
+
+    def comprehension(self, node: ast.GeneratorExp | ast.ListComp, env: dict) -> object:
+        if len(node.generators) != 1:
+            return Opaque(ast.unparse(node))
+        g = node.generators[0]
+        it = self.ev(g.iter, env)
+        if not isinstance(it, (list, tuple)):
+            return Opaque(ast.unparse(node))
+        out = []
+        for item in it:
+            local = dict(env)
+            self.bind(g.target, item, local)
+            keep = True
+            for cond in g.ifs:
+                if not self.truth(self.ev(cond, local), ast.unparse(cond)):
+                    keep = False
+                    break
+            if keep:
+                out.append(self.ev(node.elt, local))
+        return out
 
     def getattr(self, base: object, attr: str, src: str) -> object:
         if isinstance(base, Gen):
@@ -347,6 +378,9 @@ class GenWalker:
         return text
 
     def ident_source(self, src: str) -> bool:
+        for suffix in (".upper()", ".lower()"):
+            if src.endswith(suffix):
+                src = src[: -len(suffix)]
         if src not in IDENT_SOURCES:
             return False
         allowed = IDENT_SOURCES[src]
@@ -375,7 +409,11 @@ class GenWalker:
                     return base.items()
                 return Opaque(ast.unparse(node))
             if isinstance(base, str):
-                if any(isinstance(a, (Opaque, Obj)) for a in args):
+                if attr == "join" and args and isinstance(args[0], (list, tuple)) and all(isinstance(x, str) for x in args[0]):
+                    t = _Text(str(base).join(str(x) for x in args[0]))
+                    t.holes = [h for x in args[0] for h in getattr(x, "holes", [])]  # type: ignore[attr-defined]
+                    return t
+                if any(isinstance(a, (Opaque, Obj)) for a in args) or (args and isinstance(args[0], (list, tuple))):
                     return Opaque(ast.unparse(node), "str")
                 res = getattr(base, attr)(*args)
                 if isinstance(res, str) and (isinstance(base, Param) or any(isinstance(a, Param) for a in args)):
@@ -388,6 +426,9 @@ class GenWalker:
                 return self.generate_call(base, args, node)
             if isinstance(base, (Obj, _Super)):
                 return Opaque(ast.unparse(node), "str" if attr in ("build_optimized_pattern", "tag_str") else None)
+        if isinstance(f, str) and f in self.repo.mod(self._cur_rel).functions() and f not in ("version",):
+            fn = self.repo.mod(self._cur_rel).functions()[f]
+            return self.inline(self._cur_rel, None, fn, args, kwargs)
         if isinstance(f, str):
             if f == "Builder":
                 return Gen(args[0] if args else kwargs.get("rules"))
@@ -485,15 +526,18 @@ class GenWalker:
             return self.inline(r[0], r[1], r[2], [base, g, m, p])
         raise AnalysisError(f"{self.construct}: generate() on unknown receiver {ast.unparse(node)}")
 
-    def inline(self, rel: str, cls: str, fn: ast.FunctionDef, args: list) -> object:
-        if self.depth > 4:
+    def inline(self, rel: str, cls: str | None, fn: ast.FunctionDef, args: list, kwargs: dict | None = None) -> object:
+        if self.depth > 5:
             raise AnalysisError(f"{self.construct}: inlining too deep")
         env: dict = {}
         names = [a.arg for a in fn.args.args]
         for n, v in zip(names, args, strict=False):
             env[n] = v
-        saved = (self._cur_cls, self.modconst)
+        for k, v in (kwargs or {}).items():
+            env[k] = v
+        saved = (self._cur_cls, self.modconst, self._cur_rel)
         self._cur_cls = cls
+        self._cur_rel = rel
         self.modconst = self.repo.mod(rel).constants()
         self.depth += 1
         try:
@@ -503,7 +547,7 @@ class GenWalker:
             return r.value
         finally:
             self.depth -= 1
-            self._cur_cls, self.modconst = saved
+            self._cur_cls, self.modconst, self._cur_rel = saved
 
     # ---------------------------------------------------------------- statements
     def block(self, stmts: list[ast.stmt], env: dict) -> None:
@@ -572,6 +616,7 @@ class GenWalker:
     def run(self, args: dict) -> tuple[Gen | None, object]:
         env = dict(args)
         self._cur_cls = self.cls
+        self._cur_rel = self.rel
         self.pending = False
         g = next((v for v in env.values() if isinstance(v, Gen)), None)
         try:
